@@ -233,13 +233,17 @@ CHECKS = {
              "members nor on its position, any permutation of the batch permutes the results, batch of one = the single call, batches split anywhere; along "
              "the last dimension the answer for l1 ++ l2 is the answer for l1 followed by the answer for l2 (grouping of blocks does not matter), a single "
              "block is answered by the block function, rows are independent, a length that is not a whole number of blocks is rejected. The layout law is "
-             "evaluated by the kernel on each component's own single-block answers and compared with its (B, b*n) output. Partial: statelessness across "
+             "evaluated by the kernel on each component's own single-block answers and compared with its (B, b*n) output. Iterative decoders (Batch/IterStop.v): "
+             "a message-passing loop that always runs its passes, or that retires rows one by one through an index set and leaves when the set is empty, is "
+             "batch-pure for every per-row state, step, answer, criterion, batch and budget; stopping on a whole-batch test is refuted with a witness; "
+             "harness/translate/iterloops.py reads from the source on every run which discipline the LDPC BP / min-sum loop and the polar BP loop (with stop_criterion) "
+             "follow (Gen/IterLoops.v) and fails closed on any other loop shape. Partial: statelessness across "
              "calls and in-place modification of the argument cannot be expressed by a pure model and are decided by the call-history oracle on the real objects.",
         design="6/C20",
-        note="Trusted: Coq kernel + vm_compute; models Batch/Pure.v and Base/Layout.v; all theorems closed under the global context (no axioms). The reference "
+        note="Trusted: Coq kernel + vm_compute; models Batch/Pure.v, Base/Layout.v and Batch/IterStop.v (the loop body of an iterative decoder is an uninterpreted row-wise step: that the tensor operations inside it are row-wise is decided by the oracle on members of unequal reliability); translator iterloops; all theorems closed under the global context (no axioms). The reference "
              "answer of a member is the component's own answer on a batch of one; floating-point components compared with relative tolerance 2e-5; layouts a "
              "component rejects with an exception are counted, not judged.",
-        technique="Coq proof (list induction; permutations) + kernel-evaluated layout law on the component's own single-block answers + batch / permutation / layout / call-history oracle on the implementation"),
+        technique="Coq proof (list induction; permutations; loop-discipline theorems on the regenerated description of the iterative decoders' loops) + kernel-evaluated layout law on the component's own single-block answers + batch / permutation / layout / call-history oracle on the implementation"),
     "C10": dict(
         text="Coq theorems over exact rationals: the Wagner decoder returns, for EVERY non-empty real input (ties included), an even-parity "
              "word of maximum correlation (ML for the single-parity-check code); flooding BP / min-sum on ANY parity-check matrix returns the "
